@@ -28,6 +28,16 @@ R1OK(a, b, k) == \/ (a.z /\ b.z)
                  \/ (a.s = b.s /\ a.m = b.m /\ b.e = a.e + k)
 R1Judged(a, b, k) == (a.z /\ b.z) \/ (a.n /\ b.n)     \* results leaving the normal range are outside envelope E
 
+\* R1x: the same rule at scales beyond envelope E, for samplers whose last operation is the multiplication by the scale: the image
+\* 2^k a of a normal result a is reproduced exactly while its exponent stays in the normal range 1..emax, is the infinity of the
+\* same sign when the exponent overflows (that IS the rounding of the map), and is not judged when it underflows or a is not normal
+R1xOK(a, b, k, emax) ==
+    \/ (a.z /\ b.z)
+    \/ (a.n /\ a.e + k >= 1 /\ a.e + k <= emax /\ a.s = b.s /\ a.m = b.m /\ b.e = a.e + k)
+    \/ (a.n /\ a.e + k > emax /\ b.s = a.s /\ b.e = emax + 1 /\ b.m = <<0, 0>>)
+    \/ (a.n /\ a.e + k < 1)
+    \/ (~a.n /\ ~a.z)
+
 Within(a, b, d) == LLE(a, LAdd(b, <<0, 0, d>>)) /\ LLE(b, LAdd(a, <<0, 0, d>>))
 
 \* R3 tolerance in ordinals (ulps): one multiply-add of the reference vs the code's own evaluation order
